@@ -46,11 +46,13 @@ def variants(rng, tag):
     app_line_ignored = app.replace('    if mode in ("fast", "slow", "medium"):\n        return mode',
                                    '    if mode in ("fast", "slow", "medium"):  # thailint: ignore[stringly-typed]\n        return mode')
     app_magic_ignored = app.replace("total += item * 37", "total += item * 37  # thailint: ignore[magic-numbers]")
+    app_file_ignored = "# thailint: ignore-file[magic-numbers]\n" + app
+    app_file_ignored_all = "# thailint: ignore-file\n" + app
     tool_sh = "#!/bin/bash\necho 31337\n"
     tool_py = "#!/usr/bin/env python3\ndef tool_main(a):\n    print(a)\n    return a * 31337\n"
     return {
         "tool": [tool_sh, tool_py, "plain text 31337\n", tool_py.replace("31337", "31338")],
-        "src/app.py": [app, app_nomode, app + "\n\ndef extra(a):\n    return a * 31337\n", app_line_ignored, app_magic_ignored],
+        "src/app.py": [app, app_nomode, app + "\n\ndef extra(a):\n    return a * 31337\n", app_line_ignored, app_magic_ignored, app_file_ignored, app_file_ignored_all],
         "src/other.py": [other, other_nodup, nodup],
         "src/third.py": [third, third_ignored, nodup],
         "src/web.ts": [web, web.replace("console.log", "logger.info")],
@@ -61,7 +63,8 @@ def variants(rng, tag):
 
 def gen_history(rng, tag, nops):
     pool = variants(rng, tag)
-    state = {k: v[0] for k, v in pool.items() if k != "pkg/more.py"}
+    # the first contact with a file may be with any of its variants (what is remembered from the first contact is what goes stale)
+    state = {k: (v[0] if rng.random() < 0.5 else rng.choice(v)) for k, v in pool.items() if k != "pkg/more.py"}
     init = dict(state)
     ops = []
     last_lint = None
@@ -103,12 +106,22 @@ def gen_history(rng, tag, nops):
     return init, ops
 
 
-def pinned_history(rng, tag):
-    """Deterministic history: suppressions added/removed and an extension-less script changing kind between calls."""
+PINNED = {
+    # born plain: suppressions added then removed, an extension-less script changing kind between calls
+    "plain": ({}, (("src/app.py", (3, 0, 4, 0, 5, 0, 6, 2, 0)), ("src/third.py", (1, 0, 2, 0)), ("tool", (1, 0, 3, 2, 1)))),
+    # born suppressed: the object's first contact with each file is with the directive present, then it is removed
+    "born-ignored": ({"src/app.py": 5, "src/third.py": 1, "tool": 1}, (("src/app.py", (0, 6, 0, 3, 0, 4, 0)), ("src/third.py", (0, 1, 2)), ("tool", (0, 1)))),
+    "born-ignored-all": ({"src/app.py": 6, "src/third.py": 1}, (("src/app.py", (2, 5, 0)), ("src/third.py", (2, 0)))),
+}
+
+
+def pinned_history(rng, tag, which="plain"):
+    """Deterministic histories (see PINNED)."""
     pool = variants(rng, tag)
-    init = {k: v[0] for k, v in pool.items() if k != "pkg/more.py"}
-    ops = [{"op": "lint", "target": "."}]
-    for f, idxs in (("src/app.py", (3, 0, 4, 0)), ("tool", (1, 0, 3, 2, 1))):
+    born, plan = PINNED[which]
+    init = {k: v[born.get(k, 0)] for k, v in pool.items() if k != "pkg/more.py"}
+    ops = [{"op": "lint", "target": "."}] + [{"op": "lint", "target": f} for f in sorted(born)]
+    for f, idxs in plan:
         for i in idxs:
             ops.append({"op": "write", "file": f, "content": pool[f][i]})
             ops.append({"op": "lint", "target": "."})
@@ -379,8 +392,9 @@ def run(ctx):
         init, ops = gen_history(rng, "h%d" % i, rng.randint(12, 30) if ctx.quick else rng.randint(20, 60))
         hjobs.append({"init": init, "ops": ops, "config": CFG_TMP if i % 3 == 2 else CFG_MEM, "api": "linter" if i % 2 == 0 else "orchestrator", "id": "hist%d" % i})
     for api in ("linter", "orchestrator"):
-        init, ops = pinned_history(rng, "hp")
-        hjobs.append({"init": init, "ops": ops, "config": CFG_MEM, "api": api, "id": "hist-pinned-" + api})
+        for which in sorted(PINNED):
+            init, ops = pinned_history(rng, "hp", which)
+            hjobs.append({"init": init, "ops": ops, "config": CFG_MEM, "api": api, "id": "hist-pinned-%s-%s" % (which, api)})
     houts = runner.pmap(history_case, hjobs, timeout=900)
     spec_jobs, spec_meta = [], []
     for job, o in zip(hjobs, houts):
